@@ -22,6 +22,7 @@ QUIET_RULE = "md044"  # proper-names: never fires without configuration
 
 
 class PragmaSpace(spaces.Space):
+
     """(document, insertion index): the pragma line is inserted before line `ins` (ins = len: appended)."""
 
     def __init__(self, docspace):
@@ -73,6 +74,13 @@ class PragmaSpace(spaces.Space):
                 kept = [syms[i] for i in idx]
                 new_ins = sum(1 for i in idx if i < ins)
                 yield (self.name, tuple(kept), new_ins)
+
+    def subcases1(self, case):
+        _n, syms, ins = case
+        if len(syms) <= 1:
+            return
+        for i in range(len(syms)):
+            yield (self.name, tuple(syms[:i] + syms[i + 1 :]), ins - 1 if i < ins else ins)
 
     def describe(self):
         return {"name": self.name, "size": self._total, "documents": self.doc.describe()}
